@@ -71,8 +71,8 @@ Section Interp.
     match r with
     | Err XFuel => throw XFuel
     | _ =>
-        t0 <- get_ts ;;                               (* the recover runs before the inner T's cleanup *)
-        c <- cleanup ;;
+        c <- cleanup ;;                               (* the inner T's cleanup runs before the recover decides *)
+        t0 <- get_ts ;;
         match c, r with
         | Some e, Err (XInvalid m) => _ <- (if internal_msg m then mark_dirty else ret tt) ;; throw e
         | Some e, _ => throw e                       (* a panic raised during cleanup wins *)
